@@ -19,19 +19,21 @@ Inductive jsv :=
 | JStr (u : list Z)                    (* UTF-16 units *)
 | JArr (elems : list (option jsv))     (* None = hole *)
 | JObj (props : list (Z * jsv))        (* plain object, properties in insertion order *)
-| JFun.
+| JFun (nparams : Z).                   (* a function; its length property is the number of declared parameters *)
 
 Inductive gty :=
 | TNum (k : nk) | TBool | TStr | TAny
 | TSlice (e : gty) | TMap (e : gty) | TPtr (e : gty)
-| TStruct (fs : list fld) (tys : list gty).   (* field table (ModelCont.fld, no embedding) + field types *)
+| TStruct (fs : list fld) (tys : list gty)
+| TFunc.                                     (* func(int) *)   (* field table (ModelCont.fld, no embedding) + field types *)
 
 Inductive gv :=
 | GVI (k : nk) (n : Z)
 | GVF (k : nk) (d : dclass)
 | GVBool (b : bool)
 | GVStr (u : list Z)
-| GVNil                                 (* nil interface / nil pointer *)
+| GVNil                                 (* nil interface / nil pointer / nil func *)
+| GVFunc                                (* a non-nil func value *)
 | GVSlice (l : list gv)                 (* nil and empty slices are not distinguished *)
 | GVMap (l : list (Z * gv))             (* sorted by key *)
 | GVStruct (l : list gv)
@@ -91,7 +93,7 @@ Fixpoint zero (fuel : nat) (t : gty) : gv :=
       | TNum k => if is_float k then GVF k (DFin false 0 0) else GVI k 0
       | TBool => GVBool false
       | TStr => GVStr []
-      | TAny | TPtr _ => GVNil
+      | TAny | TPtr _ | TFunc => GVNil
       | TSlice _ => GVSlice []
       | TMap _ => GVMap []
       | TStruct _ tys => GVStruct (map (zero f) tys)
@@ -151,7 +153,7 @@ Fixpoint export (fuel : nat) (v : jsv) : option gv :=
       | JStr u => Some (GVStr u)
       | JArr l => option_map GVSlice (export_elems (export f) l)
       | JObj l => option_map GVMap (export_props (export f) l [])
-      | JFun => None
+      | JFun _ => Some (GVMap [])                 (* a function exports as an object without enumerable members *)
       end
   end.
 
@@ -229,13 +231,17 @@ Fixpoint conv (ideal ideal_s : bool) (fuel : nat) (v : jsv) (t : gty) : cres :=
               | inr gs => CV (GVSlice gs)
               | inl r => r
               end
-          | JFun => CDecl                                (* has a numeric length: a slice of zeros *)
+          | JFun n =>
+              (* any object with a numeric length that is not an Array: a slice of that many
+                 zero values (runtime.go, reflect.Slice case); the property asks for a TypeError *)
+              if ideal then CE 6 else CV (GVSlice (repeat (zero fuel e) (Z.to_nat n)))
           | _ => CE 6
           end
       | TMap e =>
           match v with
           | JObj l => conv_props (conv ideal ideal_s f) l e []
-          | JArr _ | JFun => CDecl
+          | JArr _ => CDecl
+          | JFun _ => CV (GVMap [])
           | _ => CE 6
           end
       | TStruct fs tys =>
@@ -243,6 +249,7 @@ Fixpoint conv (ideal ideal_s : bool) (fuel : nat) (v : jsv) (t : gty) : cres :=
           | JObj l => conv_fields (conv ideal ideal_s f) l fs tys (map (zero fuel) tys)
           | _ => CE 6
           end
+      | TFunc => match v with JFun _ => CV GVFunc | _ => CE 6 end
       end
   end.
 
@@ -366,7 +373,7 @@ Definition cb_call (idn ids : bool) (rt : cbty) (r : cbret) : cres :=
           match rt with
           | RNone => CV GVNil
           | ROne t => conv idn ids 12 v t
-          | RErr => match v with JUndef | JNull => CV GVNil | JFun => CDecl | _ => CE 6 end
+          | RErr => match v with JUndef | JNull => CV GVNil | JFun _ => CDecl | _ => CE 6 end
           | RTwo => CE 6
           end
       end
@@ -414,6 +421,7 @@ Fixpoint gv_eqb (a b : gv) : bool :=
                                                       | x :: r, y :: r' => (x =? y) && go r r'
                                                       | _, _ => false end) u u'
   | GVNil, GVNil => true
+  | GVFunc, GVFunc => true
   | GVSlice l, GVSlice l' | GVStruct l, GVStruct l' =>
       (fix go (l l' : list gv) := match l, l' with
                                   | [], [] => true
